@@ -223,6 +223,9 @@ func (hash *SexpHash) HashGet(env *Zlisp, key Sexp) (res Sexp, err error) {
 }
 
 func (hash *SexpHash) HashGetDefault(env *Zlisp, key Sexp, defaultval Sexp) (Sexp, error) {
+	if arr, isArray := key.(*SexpArray); isArray && len(arr.Val) == 1 {
+		key = arr.Val[0] // same single-element rule as HashSet and HashGet
+	}
 	hashval, err := HashExpression(env, key)
 	if err != nil {
 		return SexpNull, err
@@ -407,6 +410,9 @@ func (hash *SexpHash) HashSet(key Sexp, val Sexp) error {
 }
 
 func (hash *SexpHash) HashDelete(key Sexp) error {
+	if arr, isArray := key.(*SexpArray); isArray && len(arr.Val) == 1 {
+		key = arr.Val[0] // same single-element rule as HashSet and HashGet
+	}
 	hashval, err := HashExpression(nil, key)
 	if err != nil {
 		return err
